@@ -260,7 +260,9 @@ def intensify(ctx):
         exp = N - 1 + ini + fin
         outLen = max(0, exp + int(rng.choice([0, 0, 0, -1, 1])))
         vals = [int(v) for v in (rng.integers(-9, 10, N) if kind != 'u32u64' else rng.choice([0, 1, 2 ** 32 - 1], N))]
-        off = int(rng.choice([0, 5])) if kind != 'u32u64' else int(rng.choice([0, 2 ** 63, 2 ** 64 - 3]))
+        if kind == 'f64':
+            off = int(off)
+        off = [0, 5][int(rng.integers(0, 2))] if kind != 'u32u64' else [0, 2 ** 63, 2 ** 64 - 3][int(rng.integers(0, 3))]
         cases.append(dict(kind=kind, N=N, ini=ini, fin=fin, outLen=outLen, off=off, vals=vals))
     outs = ctx.driver.query([model_line(c) for c in cases]) if not ctx.driver.error else ['err oob'] * len(cases)
     for c, mres in zip(cases, outs):
